@@ -108,6 +108,7 @@ type TypeContract struct {
 	ExtSync    bool
 	Shared     bool // instances serve concurrent requests: undeclared field writes are reported in every property
 	Mutators   map[string]bool // methods that mutate an extsync object
+	Readers    map[string]bool // methods that read an extsync object: the protecting lock is needed in any mode
 	SetupOnly  map[string]bool // methods that are set-up calls (may write immutable fields)
 	InsertOnly map[string]bool // map fields: entries are only ever added
 }
@@ -149,7 +150,7 @@ type Contracts struct {
 	Nclause    int
 }
 
-var keywordRe = regexp.MustCompile(`^(spec|pred|axiom|lemma|theorem|globalinv|stablekeys|type|func|iface|functype|extern|props|atomic|holds_read|holds|at_call|after_call|requires|ensures|ensures_panic|ghost_ensures|modifies|loop|assume|nopanic|maypanic|trusted|pure|readsclock|noaxioms|onlyaxioms|wiring|params|immutable|stable|guards|sink|protects|guarded_by|ghost|lockinv|extsync|mutators|insert_only|setup|shared|inv|strings|noinline)\b`)
+var keywordRe = regexp.MustCompile(`^(spec|pred|axiom|lemma|theorem|globalinv|stablekeys|type|func|iface|functype|extern|props|atomic|holds_read|holds|at_call|after_call|requires|ensures|ensures_panic|ghost_ensures|modifies|loop|assume|nopanic|maypanic|trusted|pure|readsclock|noaxioms|onlyaxioms|wiring|params|immutable|stable|guards|sink|protects|guarded_by|ghost|lockinv|extsync|mutators|readers|insert_only|setup|shared|inv|strings|noinline)\b`)
 
 var labelRe = regexp.MustCompile(`^([A-Za-z_][A-Za-z_0-9]*):([^:]|$)`)
 var propsRe = regexp.MustCompile(`^\{([A-Z0-9, ]+)\}\s*`)
@@ -433,6 +434,16 @@ func (cs *Contracts) LoadContractFile(path, pkg string) error {
 			}
 			for _, f := range strings.Fields(strings.ReplaceAll(rest, ",", " ")) {
 				curT.Mutators[f] = true
+			}
+		case "readers":
+			if curT == nil {
+				return fail(l, "readers outside type")
+			}
+			if curT.Readers == nil {
+				curT.Readers = map[string]bool{}
+			}
+			for _, f := range strings.Fields(strings.ReplaceAll(rest, ",", " ")) {
+				curT.Readers[f] = true
 			}
 		case "insert_only":
 			// map fields whose entries are never replaced or deleted while the object is shared (a replaced counter
